@@ -166,6 +166,11 @@ theorem C11_last_commit_intact (sy : Bool) (cap : Nat) (F : Nat → Plan) (cs : 
       simp only [call]
       cases s.writer <;> simp only
       split <;> rfl
+    | waitMerges =>
+      exfalso; apply hne
+      simp only [call]
+      cases s.writer <;> simp only
+      split <;> rfl
     | gc =>
       exfalso; apply hne
       simp only [call]
@@ -297,6 +302,8 @@ theorem C11_error_reported (sy : Bool) (cap : Nat) (F : Nat → Plan) (cs : List
 
 example : (run false 4 (fun i p => i == 1 && p == .worker) 0 init [.newWriter, .add 1, .add 2, .commit]).2
     = [.ok, .ok, .err, .err] := by decide
+example : (run false 4 (fun i p => i == 1 && p == .worker) 0 init [.newWriter, .add 1, .waitMerges, .newWriter, .add 2, .waitMerges]).2
+    = [.ok, .ok, .err, .ok, .ok, .ok] := by decide
 example : (run false 4 (fun i p => i == 3 && p == .mergeThread) 0 init [.newWriter, .add 1, .commit, .merge, .merge]).2
     = [.ok, .ok, .ok, .err, .ok] := by decide
 
@@ -413,6 +420,11 @@ theorem C11_no_wait_cycle_partial (sy : Bool) (cap : Nat) (F : Nat → Plan) (cs
   | dropWriter =>
     simp only [call] at hh
     cases hs : s.writer <;> simp only [hs] at hh <;> cases hh
+  | waitMerges =>
+    simp only [call] at hh
+    cases hs : s.writer <;> simp only [hs] at hh
+    · cases hh
+    · split at hh <;> cases hh
   | merge =>
     simp only [call] at hh
     cases hs : s.writer <;> simp only [hs] at hh
@@ -442,6 +454,19 @@ theorem C11_no_wait_cycle_counterexample :
     (run false 2 (fun i p => i == 1 && p == .worker) 0 init
       [.newWriter, .add 1, .commit, .add 2, .add 3, .add 4]).2 = [.ok, .ok, .err, .ok, .ok, .hang] := by
   decide
+
+/-- **Worker death disconnects the pipeline.** Once the bomb went off (`alive = false`: the
+status dropped its receiver, the dead worker dropped the other one) every `add_document` returns
+`Err` — whatever the capacity and however full the channel: in particular a producer blocked on a
+full channel is woken with an error; nothing blocks. -/
+theorem C11_worker_death_disconnects (sy : Bool) (cap : Nat) (F : Nat → Plan) (cs : List Call) (f : Plan) (d : Nat) :
+    let s := final sy cap F cs
+    ∀ w, s.writer = some w → w.alive = false →
+      (call sy cap f s (.add d)).2 = .err ∧ ∀ cap', (call sy cap' f s (.add d)).2 ≠ .hang := by
+  intro s w hw ha
+  exact ⟨by simp [call, hw, ha], fun cap' => by simp [call, hw, ha]⟩
+
+example : (run false 0 (fun i p => i == 1 && p == .worker) 0 init [.newWriter, .add 1, .add 2]).2 = [.ok, .ok, .err] := by decide
 
 /-- the code as it is now: does `save_metas` sync after the rename? (0 / 1; the model handles both) -/
 theorem C11_post_rename_sync_shape : Gen.SAVE_METAS_SYNC_AFTER_WRITE = 0 ∨ Gen.SAVE_METAS_SYNC_AFTER_WRITE = 1 := by
